@@ -32,6 +32,8 @@ type Node struct {
 
 // Finding is a disagreement found on one abstract path.
 type Finding struct {
+	Method    string // top-level public operation of the instance
+	Expanding bool   // the instance needs implicit expansion of an operand
 	Rule      string
 	Construct string
 	What      string
@@ -60,6 +62,10 @@ type OpEngine struct {
 	Funcs       map[string]bool
 	Closures    map[string]bool
 
+	curMethod    string
+	curExpanding bool
+	// gradFnCalls counts applications of backward rules (closures of package gradtrack with the chainGradFunc signature)
+	gradFnCalls int
 	// Checked counts the obligations performed, by rule|construct|what
 	Checked map[string]int
 	// leaf value ranges for the A3 (finiteness) obligations of the current instance, by role
@@ -80,6 +86,9 @@ func (e *OpEngine) enter(fn *ssa.Function) bool {
 		return false
 	}
 	e.Funcs[core.FuncKey(fn)] = true
+	if fn.Parent() != nil && core.PkgPathOf(fn) == core.PkgGrad && len(fn.Params) == 0 && fn.Signature.Results().Len() == 2 {
+		e.gradFnCalls++
+	}
 	return true
 }
 
@@ -341,11 +350,49 @@ func (e *OpEngine) find(rule, construct, what, pos, detail string) {
 	if mdl, ok := sym.Model(e.M.PathConstraints(), -2, 6, nil); ok && len(mdl) > 0 {
 		wit = sym.ModelString(mdl)
 	}
-	e.Findings = append(e.Findings, Finding{Rule: rule, Construct: construct, What: what, Detail: detail + " — path: " + e.M.PathString(), Witness: wit, Pos: pos})
+	e.Findings = append(e.Findings, Finding{Method: e.curMethod, Expanding: e.curExpanding, Rule: rule, Construct: construct, What: what, Detail: detail + " — path: " + e.M.PathString(), Witness: wit, Pos: pos})
+}
+
+// expanding reports whether the tensor operands of a call differ in the dimensions that take part in
+// implicit broadcasting (all of them for element-wise operations, the batch dimensions for MatMul/Dot).
+func (e *OpEngine) expanding(method string, args []interp.Value) bool {
+	var shapes [][]sym.Poly
+	for _, a := range args {
+		if t, ok := e.W.AsTensor(a); ok {
+			shapes = append(shapes, e.W.Dims(t))
+		}
+	}
+	if len(shapes) < 2 {
+		return false
+	}
+	cut := 0
+	switch method {
+	case "MatMul":
+		cut = 2
+	case "Dot":
+		cut = 1
+	case "Add", "Sub", "Mul", "Div":
+	default:
+		return false
+	}
+	a, b := shapes[0], shapes[1]
+	if len(a) < cut || len(b) < cut {
+		return false
+	}
+	a, b = a[:len(a)-cut], b[:len(b)-cut]
+	if len(a) != len(b) {
+		return true
+	}
+	for i := range a {
+		if !a[i].Equal(b[i]) {
+			return true
+		}
+	}
+	return false
 }
 
 func (e *OpEngine) undecided(rule, construct, what, pos, detail string) {
-	e.Findings = append(e.Findings, Finding{Rule: rule, Construct: construct, What: what, Detail: detail, Pos: pos, Undecided: true})
+	e.Findings = append(e.Findings, Finding{Method: e.curMethod, Expanding: e.curExpanding, Rule: rule, Construct: construct, What: what, Detail: detail, Pos: pos, Undecided: true})
 }
 
 func (e *OpEngine) sameDims(a, b []sym.Poly) bool {
@@ -398,6 +445,10 @@ type TensorArg struct {
 
 func (e *OpEngine) mkTensor(name string, ta TensorArg) interp.PtrV {
 	g := e.W.NewGradContext(ta.Tracked, ta.Dirty, nil)
+	if ta.Tracked {
+		// give tracked operands a (harmless) back-edge list so that "no edges" on results is meaningful
+		interp.Store(g.C.Fields[e.A.GBackEdges], interp.SliceV{})
+	}
 	rng := ta.Rng
 	if rng == (spec.Ival{}) {
 		rng = spec.Rng(-1e6, 1e6)
